@@ -4,7 +4,10 @@ import importlib
 import os
 import sys
 
+import logging
+
 sys.path.insert(0, "/repo")
+logging.disable(logging.CRITICAL)
 sys.setrecursionlimit(20000)
 
 
